@@ -274,9 +274,16 @@ def _required_lists(check_fn, mod=None):
     Rc = Resolver(check_fn)
     for r in raises:
         conds = conditions_at(r)
-        colls = [(Rc.text(a.node) if hasattr(a.node, "_parent")
-                  else a.text) for a in conds if a.pol and isinstance(
-            a.node, ast.Name)]
+        colls = []
+        for a in conds:
+            if a.pol and isinstance(a.node, ast.Name):
+                colls.append(a.text)
+                if hasattr(a.node, "_parent"):
+                    rv = Rc.reaching_value(a.node)
+                    while isinstance(rv, ast.Name):     # plain aliases
+                        colls.append(rv.id)
+                        rv = Rc.reaching_value(rv) if hasattr(
+                            rv, "_parent") else None
         outer = [_hasattr_key(a.text) for a in conds if a.pol]
         outer = [h for h in outer if h]
         attrs = []
